@@ -199,11 +199,16 @@ def contents(kind, rng, tier):
 
     def older_norows(p):
         make_db(p, "usage", 1, rng, rows=False, schema_version=1)
+
+    def older_stalebackup(p):
+        # a backup file left over from an earlier database at the same path
+        make_db(p + "-backup-v1", "usage", 1, rng, schema_version=1)
+        make_db(p, "usage", 1, rng, schema_version=1)
     lst = [("absent", absent), ("empty", empty), ("junk", junk), ("truncated", truncated),
            ("current", current), ("current-norows", current_norows), ("newer", newer),
            ("noversionrow", noversionrow)]
     if kind == "usage":
-        lst += [("older", older), ("older-norows", older_norows)]
+        lst += [("older", older), ("older-norows", older_norows), ("older-stalebackup", older_stalebackup)]
         if tier != "quick":
             lst += [("older", older)] * 6
     if tier != "quick":
@@ -261,7 +266,7 @@ def generate(kind, tier, seed, workdir):
     lines, sid = [], 0
     for (cname, maker) in contents(kind, rng, tier):
         for entry in ("get", "create", "open"):
-            crash = entry in ("get", "create") and cname in ("absent", "older", "older-norows", "current", "newer") \
+            crash = entry in ("get", "create") and cname in ("absent", "older", "older-norows", "older-stalebackup", "current", "newer") \
                 and not (entry == "create" and cname != "absent")
             ls, n = scenario(kind, cname, maker, entry, rng, workdir, sid, crash=crash)
             lines += ls
